@@ -173,6 +173,54 @@ Theorem C19_signalable_blind own s p : (forall q, own p = 0 \/ own p = own q) ->
 Proof. exact (signalable_blind own s p). Qed.
 Print Assumptions C19_signalable_blind.
 
+(* ---- a holder that is suspended (SIGSTOP, ctrl-z, a debugger), and one that has exited but is not reaped ----
+   process.IsRunning asks kill(pid, 0): the pid exists. A stopped process exists, so the protocol above does not see
+   suspension at all ... *)
+Theorem C19_liveness_ignores_suspension x p :
+  open_x Kill0 x p = (mkx (fst (open_atomic (base x) p)) (stopped x) (zombies x), snd (open_atomic (base x) p)).
+Proof. exact (open_x_kill0 x p). Qed.
+Print Assumptions C19_liveness_ignores_suspension.
+(* ... a stopped holder is alive and protected: the open is refused, names it, changes nothing ... *)
+Theorem C19_stopped_holder_refused x p q : lockf (base x) = Some (LPid q) -> pstate_of x q = PStopped ->
+  lives (pstate_of x q) = true /\ open_x Kill0 x p = (x, Refused q).
+Proof. exact (stopped_refused x p q). Qed.
+Print Assumptions C19_stopped_holder_refused.
+(* ... and stays so whatever happens meanwhile: the others open, close, fail, get killed, crash inside their open, in
+   any number and order, and anybody — the holder too — is stopped and continued any number of times: the lock still
+   names the holder, the holder is there, every open is refused *)
+Theorem C19_stopped_lock_stays es x q : inv (base x) -> aoks (base x) (proj es) = true ->
+  lockf (base x) = Some (LPid q) -> mem q (dead (base x)) = false ->
+  (forall a, In (XA a) es -> actor a <> q) ->
+  let x' := xrun x es in
+  lockf (base x') = Some (LPid q) /\ mem q (dead (base x')) = false /\ forall p, open_x Kill0 x' p = (x', Refused q).
+Proof. exact (stopped_lock_stays es x q). Qed.
+Print Assumptions C19_stopped_lock_stays.
+(* reading "alive" as "in state R, S or D of /proc/<pid>/stat" (a zombie test by white list): process 2 is admitted next
+   to the live, stopped holder 1 *)
+Theorem C19_statRSD_refuted : exists x, inv (base x) /\ In 1 (holders (base x)) /\ lockf (base x) = Some (LPid 1) /\
+  pstate_of x 1 = PStopped /\ lives (pstate_of x 1) = true /\
+  snd (open_x StatRSD x 2) = Granted /\ lockf (base (fst (open_x StatRSD x 2))) = Some (LPid 2) /\
+  holders (base (fst (open_x StatRSD x 2))) = [2; 1] /\ dead (base (fst (open_x StatRSD x 2))) = [].
+Proof. exact statRSD_refuted. Qed.
+Print Assumptions C19_statRSD_refuted.
+(* only schedules in which somebody is stopped or unreaped can tell the readings apart *)
+Theorem C19_readings_blind r x p : stopped x = [] -> zombies x = [] -> open_x r x p = open_x Kill0 x p.
+Proof. exact (readings_blind r x p). Qed.
+Print Assumptions C19_readings_blind.
+(* a zombie test by black list (exists and is not Z) keeps every live holder, stopped or running, protected *)
+Theorem C19_notzombie_protects x p q : lockf (base x) = Some (LPid q) -> lives (pstate_of x q) = true -> open_x NotZombie x p = (x, Refused q).
+Proof. exact (notzombie_protects x p q). Qed.
+Print Assumptions C19_notzombie_protects.
+(* what the code does not guarantee: a holder that was killed and has not been reaped by its parent holds nothing, and
+   its lock still refuses everybody (kill(pid, 0) answers for a zombie) until the parent collects it; then it is stale *)
+Theorem C19_zombie_blocks_refuted : exists x, inv (base x) /\ holders (base x) = [] /\ lockf (base x) = Some (LPid 1) /\
+  pstate_of x 1 = PZombie /\ lives (pstate_of x 1) = false /\
+  open_x Kill0 x 2 = (x, Refused 1) /\
+  snd (open_x NotZombie x 2) = Granted /\
+  snd (open_x Kill0 (xreap x 1) 2) = Granted /\ holders (base (fst (open_x Kill0 (xreap x 1) 2))) = [2].
+Proof. exact zombie_blocks_refuted. Qed.
+Print Assumptions C19_zombie_blocks_refuted.
+
 (* ---- the hypotheses are satisfiable ---- *)
 (* a session: 1 opens, 2 is refused, 1 is killed, 3 cleans the stale lock and holds, 3's command fails and releases, 4 crashes
    inside its open before creating the file, 5 opens *)
@@ -184,4 +232,10 @@ Example C19_live_lock_example :
   let s := arun st0 [AOpen 1] in
   let es := [AOpen 2; AKill 2; ACrash 3 2; AFail 4; AClose 5] in
   inv s /\ aoks s es = true /\ lockf (arun s es) = Some (LPid 1).
+Proof. split; [apply (inv_held [] 1); reflexivity|]. vm_compute. auto. Qed.
+(* 1 holds; it is stopped, 2 is refused, 1 is continued and stopped again, 3 crashes inside its open, 1 is continued: still 1's *)
+Example C19_suspended_session :
+  let x := mkx (arun st0 [AOpen 1]) [] [] in
+  let es := [XStop 1; XA (AOpen 2); XA (AKill 2); XCont 1; XStop 1; XA (ACrash 3 2); XCont 1] in
+  inv (base x) /\ aoks (base x) (proj es) = true /\ lockf (base (xrun x es)) = Some (LPid 1) /\ stopped (xrun x es) = [].
 Proof. split; [apply (inv_held [] 1); reflexivity|]. vm_compute. auto. Qed.
